@@ -60,6 +60,10 @@ func runLockRace(line string) *result {
 					submits.Add(1)
 					if i%64 == 63 {
 						runtime.Gosched()
+						// a pool that accepts without dispatching (or a stuck controller) must not eat the memory
+						for pool.Queue.Size() > 20000 && !stop.Load() {
+							time.Sleep(time.Millisecond)
+						}
 					}
 				}
 			}()
